@@ -2,7 +2,7 @@
    that decides which entries of a tree are visited when only .gitignore files are active.  Definitions only.
 
    Rust items mirrored:
-     crates/ignore/src/gitignore.rs::GitignoreBuilder::add_line (comment, trailing spaces, \! \#, !, leading /,
+     crates/ignore/src/gitignore.rs::GitignoreBuilder::add_line (comment, trailing spaces, \! \#, !, leading /, empty pattern,
         trailing /, escaped trailing slash, implicit **/ prefix, /** => /**/*, GlobBuilder options)
      crates/ignore/src/gitignore.rs::trim_trailing_spaces, Glob::has_doublestar_prefix
      crates/ignore/src/gitignore.rs::Gitignore::{matched, matched_stripped, matched_path_or_any_parents, strip}
@@ -60,6 +60,9 @@ Definition add_line (ci : bool) (line0 : bytes) : line_result :=
       else
         let '(w, l) := if is_prefix_of [33%N] line then (true, skipn 1 line) else (false, line) in
         if is_prefix_of [47%N] l then (w, true, skipn 1 l) else (w, false, l) in
+    match line with
+    | [] => LSkip                       (* empty pattern (a lone `!`, `/`): matches nothing *)
+    | _ =>
     let '(only_dir, line) :=
       if last_is 47 line then
         let l := removelast line in
@@ -75,6 +78,7 @@ Definition add_line (ci : bool) (line0 : bytes) : line_result :=
     | Some (Ok ts) => LGlob (mk_iglob is_whitelist only_dir actual (mk_glob o ts))
     | Some (Err e) => LError e
     | None => LError Panic
+    end
     end
   end.
 
